@@ -8,6 +8,8 @@ cd /verif || exit 2
 list="$(mktemp)"
 for d in seeded/C??-? seeded/r?-C??-?; do
   [ -f "$d/patch.diff" ] || continue
+  # a seed that no longer breaks the property on the repaired tree (see its meta.json) is not expected to alarm
+  grep -q '"result": "superseded"' "$d/meta.json" 2>/dev/null && continue
   id="$(basename "$d" | sed 's/^r[0-9]-//' | cut -d- -f1)"
   echo "$id /verif/$d/patch.diff expect-violation" >> "$list"
 done
